@@ -59,6 +59,8 @@ def run_check(pid, tier, seed, plan=None):
     # 1. design level: exhaustive TLC runs of the specification itself (in the background)
     def run_design(kw):
         kw = dict(kw)
+        if "apalache" in kw:  # unbounded inductive-invariant check of a small specification
+            return {"k": kw["apalache"]}, model.apalache_inductive(kw["apalache"], kw["modules"])
         if "module" in kw:  # a model other than HgSystem
             from . import tlc
 
